@@ -17,6 +17,23 @@ let fmt17 (bits : z) : z list =
   let b = Int64.of_string ("0u" ^ string_of_z bits) in
   bytes_of_string (Printf.sprintf "%.17g" (Int64.float_of_bits b))
 
+(* the libc oracle for any option format with one floating conversion: snprintf(buf, 128, f, d) in full *)
+let fmtd (f : z list) (bits : z) : z list =
+  let b = Int64.of_string ("0u" ^ string_of_z bits) in
+  let fs = string_of_bytes f in
+  bytes_of_string (Printf.sprintf (Scanf.format_from_string fs "%f") (Int64.float_of_bits b))
+
+(* the option-format state: thread 0 is the serializing thread, 1 the helper that stays alive, 2.. the
+   helpers that make one call and exit; thread-local storage is compiled into the harness build *)
+let fstate = ref fmt_init
+let next_tid = ref 2
+
+(* json_object_to_json_string_length in the serializing thread *)
+let ser_len (fz : z) (v : jv) : z list * z =
+  match effective !fstate Z0 with
+  | None -> to_json_string_length fmt17 fz v
+  | Some f -> let t = serialize_in fmt17 fmtd (Some f) (flags_of fz) O v in (t, z_of_int (List.length t))
+
 let strtod_bits (bs : z list) : z =
   let s = string_of_bytes bs in
   let f = try float_of_string s with _ -> nan in
@@ -50,7 +67,7 @@ let strip_color (l : z list) : z list =
 
 let one (v : jv) (flags : string) : string =
   let fz = z_of_string flags in
-  let (text, len) = to_json_string_length fmt17 fz v in
+  let (text, len) = ser_len fz v in
   let head = Printf.sprintf "%s %s" (hex_of_bytes text) (string_of_z len) in
   match tok_new (z_of_int 32) false false false with
   | None -> head ^ " NEWFAIL"
@@ -60,7 +77,7 @@ let one (v : jv) (flags : string) : string =
      | PRFuel -> head ^ " FUEL"
      | PR (t', None) -> Printf.sprintf "%s PARSEFAIL %s" head (err_name t'.err)
      | PR (_, Some v') ->
-       let (text', _) = to_json_string_length fmt17 fz v' in
+       let (text', _) = ser_len fz v' in
        Printf.sprintf "%s %s %s %s" head (if jv_equal v v' then "1" else "0") (string_of_jv v') (hex_of_bytes text'))
 
 (* "@" or "i.j.k" at the start of s; returns (path, rest of s) *)
@@ -88,7 +105,7 @@ let apply_op (op : string) (t : jv) (aside : jv option) (out : string list ref) 
   | 'C' -> (hop_apply HCopy t, aside)
   | 'K' -> (hop_apply HCopy t, Some t)
   | 'R' ->
-    let (text, _) = to_json_string_length fmt17 (z_of_string body) t in
+    let (text, _) = ser_len (z_of_string body) t in
     let body_txt = if (int_of_string body) land 32 <> 0 then strip_color text else text in
     (match tok_new (z_of_int 32) false false false with
      | None -> raise (Stop "R NEWFAIL")
@@ -105,6 +122,16 @@ let apply_op (op : string) (t : jv) (aside : jv option) (out : string list ref) 
   | 'U' -> let (p, rest) = parse_path body in (hop_apply (HSetUint64 (nat_path p, z_of_string (after_eq rest))) t, aside)
   | 'B' -> let (p, rest) = parse_path body in (hop_apply (HSetBoolean (nat_path p, after_eq rest = "1")) t, aside)
   | 'T' -> let (p, rest) = parse_path body in (hop_apply (HSetString (nat_path p, bytes_of_hex (after_eq rest))) t, aside)
+  | 'F' ->
+    if String.length op < 5 || op.[3] <> '=' then raise (Stop "BADOP");
+    let tid = (match op.[1] with 'm' -> Z0 | 'p' -> z_of_int 1 | 'h' -> let n = !next_tid in incr next_tid; z_of_int n | _ -> raise (Stop "BADOP")) in
+    let scope = (match op.[2] with 'g' -> Z0 | 't' -> z_of_int 1 | _ -> z_of_int 7) in
+    let arg = String.sub op 4 (String.length op - 4) in
+    let fmt = if arg = "~" then None else Some (bytes_of_hex arg) in
+    let (st', rc) = set_format true !fstate tid fmt scope in
+    fstate := st';
+    out := ("F " ^ string_of_z rc) :: !out;
+    (t, aside)
   | 'Z' | 'Y' -> let (p, rest) = parse_path body in ignore (after_eq rest); (hop_apply (HResetSerializer (nat_path p)) t, aside)
   | 'G' -> let (p, rest) = parse_path body in ignore (after_eq rest);
     (* only a double takes the format serializer; on a double the net effect is the reset *)
@@ -125,6 +152,7 @@ let apply_op (op : string) (t : jv) (aside : jv option) (out : string list ref) 
 let run line =
   match split_on ' ' line with
   | tree :: flags :: rest ->
+    fstate := fmt_init; next_tid := 2;
     let v0 = jv_of_string tree in
     let steps = ref [] in
     let v =
